@@ -20,21 +20,28 @@ from vmon.refmodels import notation as N
 from vmon.refmodels import pitch as P
 
 PROP = "C19"
-RULE = ("abstract scores (1-4 staves/spines, 1-2 layers, 1-10 measures, 13 meters, pickups, meter/key/clef changes, "
-        "values breve..64th x 0-2 dots, tuplets 3:2 5:4 6:4 7:4 2:3 7:8 9:8 with merged/dotted members, chords, rests, "
-        "measure rests, spaces, grace notes, ties incl. chains and chord members) rendered by independent MEI and kern "
-        "writers under random encoding options (MEI: meter/key/clef as staffDef/scoreDef attributes or children, ppq / "
-        "dur.ppq / neither, beams in and around tuplets, accid/accid.ges/<accid>, <tie> placement, nested staffGrp and "
-        "sections, endings, repeats; kern: *staff/first barline/closing barline/naturals/key designation/reference "
-        "records on or off, integer and rational reciprocals, spine splits); generated parts exported by save_mei / "
-        "save_kern and re-loaded; the 33 fixture files as smoke input; extension dispatch. A case is non-trivial when "
-        "the document has >= 2 voices or spines, >= 1 dotted or tuplet value and >= 1 tie (export cases: >= 2 voices or "
-        "staves and a dotted/tuplet value); distinct by document digest")
-ASSUMPTIONS = ["reference semantics of notation in vmon/refmodels/notation.py; writers mei_writer.py / kern_writer.py",
-               "alter None == 0; kern part order, the zero-length measure after a closing barline and kern voice "
-               "numbers (only the partition into voices is judged) are not judged; kern key mode is not judged",
-               "export round trip judged on the multiset (onset, duration, MIDI pitch, staff) of all notes",
-               "float32 note-array columns compared with relative tolerance 1e-6"]
+RULE = ("abstract scores (1-4 staves/spines, 1-2 layers per staff, 1-10 measures, 13 meters, pickups, meter/key/clef "
+        "changes at barlines, values breve..64th x 0-2 dots, 1-3 tuplet ratios per document out of 3:2 5:4 6:4 7:4 2:3 7:8 "
+        "9:8 with merged and dotted members, chords, rests, measure rests, spaces, grace notes, ties incl. chains and chord "
+        "members; smallest exact divisions <= 5040) rendered by independent MEI and kern writers under random encoding "
+        "options (MEI: meter/key/clef as staffDef or scoreDef attributes or children, @ppq / @dur.ppq / both / neither, "
+        "beams in and around tuplets, accid / accid.ges / <accid>, <tie> placement, nested staffGrp before or after a "
+        "staffDef, nested sections, endings, well-formed repeats; kern: *staff / first barline / closing barline / "
+        "naturals / key designation / reference records on or off, integer and rational reciprocals, spine splits); "
+        "generated parts (gen_score: chords rests ties graces tuplets multivoice multistaff pickup meter/key/clef changes) "
+        "exported by save_mei / save_kern and re-loaded; the 33 fixture files as smoke input; extension dispatch through "
+        "load_score for .mei .MEI .krn .kern .KRN. A document case is non-trivial when it has >= 2 voices or spines, >= 1 "
+        "dotted or tuplet value and >= 1 tie; an export case when the part has >= 2 voices or staves and a dotted or tuplet "
+        "value; distinct by document digest")
+ASSUMPTIONS = ["reference semantics of notation in vmon/refmodels/notation.py; independent writers mei_writer.py / kern_writer.py",
+               "alter None == 0; for kern the part order, the zero-length measure after a closing barline, voice numbers "
+               "(only the partition into voices is judged), the staff number of spines without *staff and the key mode "
+               "are not judged; a kern document without any barline has no judged measures (counted as ambiguous)",
+               "per document only the earliest disagreement in time/pitch is reported (later ones follow from it); "
+               "voices, staves, ties, grace class, measures and signatures are judged on parts whose events all agree",
+               "export round trip judged on the multiset (onset, duration, MIDI pitch, staff) of all notes of the part",
+               "fixture files are outside the quantifier: a reader that rejects one is counted, not judged",
+               "float32 note-array columns compared with relative tolerance 1e-6, up to the constant pickup shift"]
 MIN_HOOKS = {"load_mei": {"quick": 1000, "thorough": 20000}, "load_kern": {"quick": 1000, "thorough": 20000},
              "load_score": {"quick": 40, "thorough": 200}, "save_mei": {"quick": 150, "thorough": 3000},
              "save_kern": {"quick": 150, "thorough": 3000}}
